@@ -231,9 +231,8 @@ class TrajectoryConstraintsRemover(engines.engine.Engine, CompilerMixin):
         for action in A_prime:
             new_problem.add_action(action)
         for init_val in I_prime:
-            new_problem.set_initial_value(
-                up.model.Fluent(f"{init_val}", env.type_manager.BoolType()), True
-            )
+            # init_val is the monitoring atom (a fluent expression of this environment)
+            new_problem.set_initial_value(init_val, True)
 
         new_problem.clear_quality_metrics()
         for qm in grounded_problem.quality_metrics:
@@ -377,6 +376,7 @@ class TrajectoryConstraintsRemover(engines.engine.Engine, CompilerMixin):
                 fluent = up.model.Fluent(
                     f"{type}{SEPARATOR}{monitoring_atoms_counter}",
                     env.type_manager.BoolType(),
+                    environment=env,
                 )
                 monitoring_atoms.append(fluent)
                 monitoring_atom = env.expression_manager.FluentExp(fluent)
